@@ -61,6 +61,21 @@ Definition wh_cov (m : nat) (A Kxx Sw : M) : M :=
 Definition unwhiten_mean (m : nat) (L mz mw : M) : M := madd mz (mmul m L mw).
 Definition unwhiten_cov (m : nat) (L Sw : M) : M := mmul m L (mmul m Sw (mT L)).
 
+(* staged versions: the same expressions with every intermediate product materialised once
+   ([mat] is the identity up to [meq], lemma [mat_meq]); these are what the executable wrapper
+   runs, Proofs/C14 shows them [meq] to the definitions above *)
+Definition unwh_cov_staged (m n : nat) (Kzz Kzx Kxx Kinv S : M) : M :=
+  let W1 := mat m n (mmul m Kinv Kzx) in
+  let W2 := mat m n (mmul m (msub Kzz S) W1) in
+  let W3 := mat m n (mmul m Kinv W2) in
+  msub Kxx (mmul m (mT Kzx) W3).
+Definition unwh_mean_staged (m : nat) (Kzx Kinv mx mz mq : M) : M :=
+  let w := mat m 1 (mmul m Kinv (msub mq mz)) in madd mx (mmul m (mT Kzx) w).
+Definition wh_cov_staged (m n : nat) (A Kxx Sw : M) : M :=
+  let W := mat m n (mmul m (msub Sw mI) A) in madd Kxx (mmul m (mT A) W).
+Definition unwhiten_cov_staged (m : nat) (L Sw : M) : M :=
+  let W := mat m m (mmul m Sw (mT L)) in mmul m L W.
+
 (* ---- KL(q(u) || p(u)), rational part (without the log-determinants) ------------------ *)
 (* whitened: 2 KL = tr Sw + |mw|^2 - n - log det Sw *)
 Definition kl_wh_alg (n : nat) (Sw mw : M) : car := trace n Sw + dot n mw mw.
@@ -148,7 +163,7 @@ Definition wh_core (m n : nat) (KJ muJ : @M QcF) (jxx : Qc) (L mq Sq : @M QcF)
   match inv_checked m (mat m m L) with
   | Some Linv =>
       let A := mat m n (interp m Linv Kzx) in
-      Some (mat n 1 (wh_mean m A mx mq), mat n n (wh_cov m A Kxx Sq))
+      Some (mat n 1 (wh_mean m A mx mq), mat n n (wh_cov_staged m n A Kxx Sq))
   | None => None
   end.
 
@@ -181,8 +196,8 @@ Definition run_c14 (c : nat * (nat * nat * nat) * list (list Qc) * list Qc * (Qc
       match inv_checked m Kzz, inv_checked m Kp with
       | Some Kinv, Some Kpinv =>
           1%Z :: ser_mat m 1 mq ++ ser_mat m m Sq
-              ++ ser_mat n 1 (unwh_mean m Kzx Kinv mx mz mq)
-              ++ ser_mat n n (unwh_cov m Kzz Kzx Kxx Kinv Sq)
+              ++ ser_mat n 1 (unwh_mean_staged m Kzx Kinv mx mz mq)
+              ++ ser_mat n n (unwh_cov_staged m n Kzz Kzx Kxx Kinv Sq)
               ++ ser_expr (kl_unwh_expr m has_cov Kp Kpinv Sq mq mz)
       | _, _ => [0%Z]
       end
@@ -195,9 +210,9 @@ Definition run_c14 (c : nat * (nat * nat * nat) * list (list Qc) * list Qc * (Qc
               ++ ser_mat n 1 pm ++ ser_mat n n pc
               ++ ser_expr (kl_wh_expr m has_cov Sq mq)
               ++ ser_qc (max_abs_diff m m (mmul m L (mT L)) Kzz)
-              ++ ser_mat n 1 (unwh_mean m Kzx Kinv mx mz (unwhiten_mean m L mz mq))
+              ++ ser_mat n 1 (unwh_mean_staged m Kzx Kinv mx mz (unwhiten_mean m L mz mq))
               ++ ser_mat n n (add_jitter jxx
-                   (unwh_cov m Kzz Kzx Kxx0 Kinv (mat m m (unwhiten_cov m L Sq))))
+                   (unwh_cov_staged m n Kzz Kzx Kxx0 Kinv (mat m m (unwhiten_cov_staged m L Sq))))
       | _, _ => [0%Z]
       end
     | 2%nat =>
